@@ -306,7 +306,14 @@ class Popen(AgentExecutingComponent):
 
         # now that the task cancellation cb would succeed, let's make sure that
         # no cancellation request sneaked in before the task got started
-        if self.is_canceled(task) is True:
+        # (the task is not handed back as CANCELED here: `cancel_task` will
+        # kill the process and pass the task on with that target state)
+        with self._cancel_lock:
+            canceled = tid in self._cancel_list
+            if canceled:
+                self._cancel_list.remove(tid)
+
+        if canceled:
             self.cancel_task(task)
 
 
